@@ -74,8 +74,9 @@ def handle (line : String) : String :=
       if specTagOfText text ≠ some (g, e) then s!"BAD-LINE generator: text is not a form of the tag"
       else if res ≠ ["ok", toString g, toString e] then
         s!"PROP-FAIL class=tag-roundtrip tag=({g},{e}) text={hexOf text} impl={sp res}"
-      else if printTag (g, e) ≠ disp then s!"MODEL-DIFF display model={hexOf (printTag (g, e))} impl={hexOf disp}"
       else if specTagOfText disp ≠ some (g, e) then s!"PROP-FAIL class=tag-display tag=({g},{e}) printed={hexOf disp}"
+      else if tagForm .paren true (g, e) ≠ disp ∧ tagForm .paren false (g, e) ≠ disp then
+        s!"MODEL-DIFF display model={hexOf (printTag (g, e))} impl={hexOf disp}"
       else if renderTagRes (parseTag text) ≠ res then s!"MODEL-DIFF parse model={sp (renderTagRes (parseTag text))} impl={sp res}"
       else
         -- the model's own printer for the two pure-case variants
